@@ -14,6 +14,14 @@ kernel-output directory.  Core Lean only.
 * `File.owner` / `File.writers` are ghost fields (who created / who wrote the file); the real file
   system does not store them, the harness observes them by logging `os.open`/`os.write`.
 
+Names are abstract: `(base, idx)` stands for `<base>_<idx>_mod.f90`, and a `Content` with `base`, `tag = some i`
+for a text whose module is `<base>_<i>_mod` and whose kernel routine is `<base>_<i>_code`.  This is the behaviour
+of `_new_name` WITH fixes/C29-newname-case.patch (suffix test case-insensitive, as in the computation of the file
+name).  The pinned code inserted the tag after an upper-case `_MOD` (`TESTKERN_MOD_0_mod` inside
+`TESTKERN_0_mod.f90`); the harness scenario "uppercase-MOD" reports that as a VIOLATION on an unfixed tree.
+For the 'single' concurrency defect the model is FAITHFUL to the (unfixed) code: see
+`C29_single_concurrent_counterexample` / `C29_single_sequential_partial` in Props/C29.lean.
+
 Assumed (trusted base): `os.open(O_CREAT|O_EXCL)` is atomic and fails only because the file exists;
 a single `os.write` of the whole text is atomic w.r.t. a concurrent `read`; nobody deletes files. -/
 namespace C29
